@@ -558,6 +558,61 @@ pub fn script_scenario(prop: &str, shape: Shape, scripts: Vec<Vec<Op>>, oracle: 
           }
         }
       }
+      // ---- rate limiting (C09): only source items, each at most once, in source
+      // order; an undisturbed source that completed got its last item through
+      // (debounce: always the final one; throttle with both edges: the first of
+      // the first window and the final one), then the completion
+      if matches!(shape, Shape::Debounce | Shape::Throttle | Shape::Sample) {
+        let ops: Vec<Op> = calls.iter().map(|c| c.op).collect();
+        let a_threads: std::collections::BTreeSet<usize> =
+          calls.iter().filter(|c| matches!(c.op, Op::NextA(_))).map(|c| c.thread).collect();
+        // emission order of the source is only defined when one thread emits
+        let mut a_calls: Vec<&Call> = calls.iter().filter(|c| matches!(c.op, Op::NextA(_))).collect();
+        a_calls.sort_by_key(|c| c.start);
+        let a_items: Vec<Item> = a_calls.iter().map(|c| if let Op::NextA(v) = c.op { v } else { 0 }).collect();
+        let notes = p0.notes();
+        let got: Vec<Item> = notes.iter().filter_map(|n| if let Note::N(v) = n { Some(*v) } else { None }).collect();
+        let mut bad: Option<String> = None;
+        for v in &got {
+          if !a_items.contains(v) {
+            bad = Some(format!("item {v} was never emitted by the source"));
+          } else if got.iter().filter(|x| *x == v).count() > 1 {
+            bad = Some(format!("item {v} delivered more than once"));
+          }
+        }
+        if bad.is_none() && a_threads.len() <= 1 {
+          let pos: Vec<usize> = got.iter().map(|v| a_items.iter().position(|x| x == v).unwrap()).collect();
+          if pos.windows(2).any(|w| w[0] >= w[1]) {
+            bad = Some("items delivered out of source order".into());
+          }
+        }
+        if let Some(b) = bad {
+          ctx.fail(
+            format!("{prop}:invented-duplicated-or-reordered:{}", shape.name()),
+            format!("source emitted {a_items:?}, output [{}]: {b}", fmt_notes(&notes)),
+          );
+        }
+        let undisturbed = !ops.iter().any(|o| matches!(o, Op::Unsubscribe | Op::UnsubSubject | Op::ErrorA | Op::Subscribe | Op::SubscribeNesting));
+        let one_completion = scripts.iter().map(|s| s.iter().filter(|o| **o == Op::CompleteA).count()).sum::<usize>() == 1;
+        let owner_last = scripts.iter().all(|s| match s.iter().position(|o| *o == Op::CompleteA) {
+          Some(d) => s.iter().enumerate().all(|(i, o)| !matches!(o, Op::NextA(_)) || i < d),
+          None => !s.iter().any(|o| matches!(o, Op::NextA(_))),
+        });
+        if shape != Shape::Sample && undisturbed && one_completion && owner_last && !a_items.is_empty() {
+          let last_ok = got.last() == a_items.last();
+          let first_ok = shape != Shape::Throttle || got.first() == a_items.first();
+          if !(last_ok && first_ok && notes.last() == Some(&Note::C)) {
+            ctx.fail(
+              format!("{prop}:final-item-or-completion:{}", shape.name()),
+              format!(
+                "source emitted {a_items:?} and completed; output [{}] (expected {}the final item, then the completion)",
+                fmt_notes(&notes),
+                if shape == Shape::Throttle { "the first item, " } else { "" }
+              ),
+            );
+          }
+        }
+      }
       let _ = end_stamp;
       let mut d = 0;
       for p in &probes {
@@ -1420,6 +1475,34 @@ pub fn plan(prop: &str, tier: Tier) -> Option<Plan> {
         rule: "subject.finalize_threads(f): a terminating thread (complete / error, with or without a preceding item) against an unsubscribing thread, and with a second terminating thread; every schedule within the preemption bound; oracle: the finalizer ran exactly once when all threads have returned".into(),
         bounds: json!({"preemptions_two_threads": c, "preemptions_three_threads": c - 1}),
         assumptions: vec!["sequentially consistent memory".into()],
+      })
+    }
+    "C09" => {
+      let c = if q { 2 } else { 3 };
+      for shape in [Shape::Debounce, Shape::Throttle] {
+        for s in [
+          vec![vec![Op::NextA(1), Op::CompleteA]],
+          vec![vec![Op::NextA(1), Op::NextA(2), Op::CompleteA]],
+          vec![vec![Op::NextA(1), Op::NextA(2), Op::NextA(3)]],
+          vec![vec![Op::NextA(1), Op::CompleteA], vec![Op::NextA(2)]],
+          vec![vec![Op::NextA(1), Op::NextA(2)], vec![Op::Unsubscribe]],
+          vec![vec![Op::NextA(1), Op::ErrorA]],
+        ] {
+          let n_ops: usize = s.iter().map(|x| x.len()).sum();
+          sc.push(script_scenario("C09", shape, s, Oracle::Serialise, if n_ops >= 3 { c } else { c + 1 }, CAP));
+        }
+      }
+      for s in [
+        vec![vec![Op::NextA(1), Op::NextA(2), Op::CompleteA], vec![Op::NextB(3), Op::NextB(4)]],
+        vec![vec![Op::NextA(1), Op::NextA(2)], vec![Op::NextB(3), Op::CompleteB]],
+      ] {
+        sc.push(script_scenario("C09", Shape::Sample, s, Oracle::Serialise, c, CAP));
+      }
+      Some(Plan {
+        scenarios: sc,
+        rule: "debounce and throttle_time (both edges) over a SubjectThreads with every timer task its own controlled task that may run at any moment, sample_threads with the notifier driven by a second thread: one or two emitting threads (1-3 next, optionally a terminal) and optionally an unsubscribing thread; every schedule within the preemption bound; oracle once everything has returned and the pool is drained: the output consists of source items only, each at most once, in source order (when one thread emits); an undisturbed completed source got its final item through (throttle: also its first) followed by the completion; no overlapping callbacks, grammar, nothing blocks".into(),
+        bounds: json!({"preemptions": c}),
+        assumptions: vec!["sequentially consistent memory".into(), "a timer is a point at which its task may be postponed arbitrarily (virtual time itself is engine E1's subject)".into()],
       })
     }
     "C02" => {
